@@ -670,6 +670,28 @@ static carquet_status_t parse_page_header_mmap(
                                 page_header->compressed_page_size, error);
 }
 
+/* All column readers of a file share one FILE*, and the batch reader loads the
+ * pages of different columns from several threads. A seek and the read that
+ * depends on it therefore form one critical section; otherwise another thread
+ * moves the position in between and the page is read from the wrong place.
+ * Returns non-zero when the seek failed; *got receives the bytes read. */
+static int read_at(FILE* file, int64_t offset, void* buf, size_t size, size_t* got) {
+    int seek_failed = 0;
+    size_t n = 0;
+#ifdef _OPENMP
+    #pragma omp critical(carquet_file_io)
+#endif
+    {
+        if (fseek(file, (long)offset, SEEK_SET) != 0) {
+            seek_failed = 1;
+        } else {
+            n = fread(buf, 1, size, file);
+        }
+    }
+    *got = n;
+    return seek_failed;
+}
+
 /* stdio: start with a small window, widen it while the parser fails and the
  * file still had more bytes to offer */
 static carquet_status_t parse_page_header_fread(
@@ -693,12 +715,12 @@ static carquet_status_t parse_page_header_fread(
             buf = heap_buf;
         }
 
-        if (fseek(file, (long)offset, SEEK_SET) != 0) {
+        size_t got = 0;
+        if (read_at(file, offset, buf, window, &got) != 0) {
             free(heap_buf);
             CARQUET_SET_ERROR(error, CARQUET_ERROR_FILE_SEEK, "Failed to seek to page header");
             return CARQUET_ERROR_FILE_SEEK;
         }
-        size_t got = fread(buf, 1, window, file);
         if (got < 8) {
             free(heap_buf);
             CARQUET_SET_ERROR(error, CARQUET_ERROR_FILE_READ, "Failed to read page header");
@@ -825,13 +847,7 @@ static carquet_status_t load_dictionary_page_fread(
     FILE* file = file_reader->file;
     const parquet_column_metadata_t* col_meta = reader->col_meta;
 
-    /* Seek to dictionary page */
-    if (fseek(file, (long)dict_offset, SEEK_SET) != 0) {
-        CARQUET_SET_ERROR(error, CARQUET_ERROR_FILE_SEEK, "Failed to seek to dictionary");
-        return CARQUET_ERROR_FILE_SEEK;
-    }
-
-    /* Read page header */
+    /* Read page header (parse_page_header_fread positions the stream itself) */
     parquet_page_header_t page_header;
     size_t header_size;
     carquet_status_t status = parse_page_header_fread(
@@ -845,21 +861,21 @@ static carquet_status_t load_dictionary_page_fread(
         return CARQUET_ERROR_INVALID_PAGE;
     }
 
-    /* Seek past header and read page data */
-    if (fseek(file, (long)dict_offset + (long)header_size, SEEK_SET) != 0) {
-        CARQUET_SET_ERROR(error, CARQUET_ERROR_FILE_SEEK, "Failed to seek past dict header");
-        return CARQUET_ERROR_FILE_SEEK;
-    }
-
-    /* Allocate and read compressed data */
-    uint8_t* compressed = malloc(page_header.compressed_page_size);
+    /* Allocate and read compressed data (seek past the header + read, atomically) */
+    uint8_t* compressed = malloc(page_header.compressed_page_size ? (size_t)page_header.compressed_page_size : 1);
     if (!compressed) {
         CARQUET_SET_ERROR(error, CARQUET_ERROR_OUT_OF_MEMORY, "Failed to allocate compressed buffer");
         return CARQUET_ERROR_OUT_OF_MEMORY;
     }
 
-    if (fread(compressed, 1, page_header.compressed_page_size, file) !=
-        (size_t)page_header.compressed_page_size) {
+    size_t body_read = 0;
+    if (read_at(file, dict_offset + (int64_t)header_size, compressed,
+                (size_t)page_header.compressed_page_size, &body_read) != 0) {
+        free(compressed);
+        CARQUET_SET_ERROR(error, CARQUET_ERROR_FILE_SEEK, "Failed to seek past dict header");
+        return CARQUET_ERROR_FILE_SEEK;
+    }
+    if (body_read != (size_t)page_header.compressed_page_size) {
         free(compressed);
         CARQUET_SET_ERROR(error, CARQUET_ERROR_FILE_READ, "Failed to read dictionary data");
         return CARQUET_ERROR_FILE_READ;
@@ -1186,12 +1202,7 @@ static carquet_status_t load_next_page_fread(
         }
     }
 
-    /* Seek to data page */
     int64_t data_offset = reader->data_start_offset;
-    if (fseek(file, data_offset + reader->current_page, SEEK_SET) != 0) {
-        CARQUET_SET_ERROR(error, CARQUET_ERROR_FILE_SEEK, "Failed to seek to data page");
-        return CARQUET_ERROR_FILE_SEEK;
-    }
 
     /* Read page header */
     parquet_page_header_t page_header;
@@ -1223,21 +1234,21 @@ static carquet_status_t load_next_page_fread(
         return CARQUET_ERROR_INVALID_PAGE;
     }
 
-    /* Seek past header and read page data */
-    if (fseek(file, data_offset + reader->current_page + (long)header_size, SEEK_SET) != 0) {
-        CARQUET_SET_ERROR(error, CARQUET_ERROR_FILE_SEEK, "Failed to seek past header");
-        return CARQUET_ERROR_FILE_SEEK;
-    }
-
-    /* Allocate and read compressed data */
-    uint8_t* compressed = malloc(page_header.compressed_page_size);
+    /* Allocate and read compressed data (seek past the header + read, atomically) */
+    uint8_t* compressed = malloc(page_header.compressed_page_size ? (size_t)page_header.compressed_page_size : 1);
     if (!compressed) {
         CARQUET_SET_ERROR(error, CARQUET_ERROR_OUT_OF_MEMORY, "Failed to allocate compressed buffer");
         return CARQUET_ERROR_OUT_OF_MEMORY;
     }
 
-    if (fread(compressed, 1, page_header.compressed_page_size, file) !=
-        (size_t)page_header.compressed_page_size) {
+    size_t body_read = 0;
+    if (read_at(file, data_offset + reader->current_page + (int64_t)header_size, compressed,
+                (size_t)page_header.compressed_page_size, &body_read) != 0) {
+        free(compressed);
+        CARQUET_SET_ERROR(error, CARQUET_ERROR_FILE_SEEK, "Failed to seek past header");
+        return CARQUET_ERROR_FILE_SEEK;
+    }
+    if (body_read != (size_t)page_header.compressed_page_size) {
         free(compressed);
         CARQUET_SET_ERROR(error, CARQUET_ERROR_FILE_READ, "Failed to read page data");
         return CARQUET_ERROR_FILE_READ;
